@@ -90,7 +90,7 @@ def draw_params(ch, shape):
             return {"a": ch.pick(cp, "a"), "b": ch.pick(cp, "b"), "c": 0.0}
         return {"a": ch.pick([None] + sp, "a"), "b": ch.pick([None] + sp, "b"), "c": ch.pick(fp, "c")}
     if shape == "P3":
-        return {"n": {"a": ch.pick(ip, "na"), "b": ch.pick(sp, "nb")}, "e": ch.pick(["RED", "GREEN"], "e"), "s": ch.pick([1, 1000, "1*m", "2.5*K", 0.001], "s")}
+        return {"n": {"a": ch.pick(ip, "na"), "b": ch.pick(sp, "nb")}, "e": ch.pick(["RED", "GREEN"], "e"), "s": ch.pick([1, 1000, "1*m", "2.5*K", 0.001, "1000*µ", "1*K", "2500*UNIT", "0.0025*M"], "s")}
     return {"m": ch.pick(["ma", "mb", "r1", "r2"], "m"), "k": ch.pick(ip, "k")}
 
 
@@ -167,8 +167,10 @@ class Env:
         if shape == "P3":
             s = spec["s"]
             if isinstance(s, str):
+                from decimal import Decimal
+
                 num, pre = s.split("*")
-                s = float(num) * getattr(h.prefix, pre)
+                s = Decimal(num) * getattr(h.prefix, pre)
             return self.P["P3"](n=self.P["P1"](**spec["n"]), e=Color[spec["e"]], s=s)
         return self.P["P4"](m=self.mods[spec["m"]], k=spec["k"])
 
@@ -240,6 +242,11 @@ def pkey(p):
 
     if dataclasses.is_dataclass(p) and hasattr(p, "__params__"):
         return ("PC", type(p).__name__) + tuple((f.name, pkey(getattr(p, f.name))) for f in dataclasses.fields(p))
+    if type(p).__name__ == "Prefixed" and hasattr(p, "number") and hasattr(p, "prefix"):
+        # a number: its value, however it is written (1000*µ is 1*m)
+        from decimal import Decimal
+
+        return ("NUM", (Decimal(p.number) * Decimal(10) ** p.prefix.value).normalize())
     return p
 
 
